@@ -92,6 +92,10 @@ def corpus():
         ["eq", ["not", ["li", 3]], ["not", c("ba")]],
         ["mul", ["subq", c("ia")], ["li", 2]],
         ["mul", ["coalesce", [["add", c("ia"), ["li", 1]], c("ib")]], ["li", 2]],
+        ["sub", ["pi", 5], c("ia")],
+        ["lt", ["pi", 5], ["add", c("ia"), ["pi", 1]]],
+        ["add", ["ps", "x"], c("sa")],
+        ["floordiv", ["pi", 7], ["sub", c("ia"), ["pi", 2]]],
         ["lt", c("ia"), ["true"]],  # the API raises
     ]
 
@@ -310,7 +314,7 @@ def run(ctx, deep=False):
         if sig in seen:
             continue
         seen.add(sig)
-        nops = sum(1 for o in L.ops_of(u) if o not in ("col", "li", "ls", "ln", "lb", "null", "true", "false"))
+        nops = sum(1 for o in L.ops_of(u) if o not in ("col", "li", "ls", "ln", "lb", "null", "true", "false", "pi", "ps"))
         ctx.case(sig, nontrivial=nops >= 2)
         ctx.count("source=" + src)
         ctx.count("depth=%d" % min(L.depth(u), 8))
